@@ -464,4 +464,175 @@ theorem param_slots (l : Lit) (self : Val) (args : List Val) (i : Nat) (hi : i <
 
 example : (initLocals { nparams := 1, named := true, nlocals := 3, frees := [], body := [] } .nil [.int 7]).length = 3 := by decide
 
+
+/-! ## Block scopes: a block variable keeps its slot for good
+
+`if`/`else` bodies, `switch` cases and the loop forms compile their body in a block table
+(`NewBlock`), which claims its indexes from the enclosing FUNCTION table
+(`claimIndex`: `idx := len(t.symbols)`, append) and is then dropped
+(`code.symbols = code.symbols.parent`) without giving anything back.  `FScope.applyOp` is that
+allocator; `declareName`, `RS.openB`, `RS.closeB` — what the resolver of the closure language
+does — are its three operations (`resolver_uses_allocator`).  The harness compares the slots
+(`STORE_FAST` operands, `MAKE_CELL` operands, `LocalsCount`) of the real bytecode with it. -/
+
+/-- **Slots are never reused.**  For EVERY sequence of block-open / block-close / declaration
+    operations on a function's tables, from any state of the tables: two distinct new variables
+    (positions `i ≠ j` in declaration order) — whatever blocks they are declared in, still open
+    or long closed, nested or siblings — never get the same local slot. -/
+theorem block_slots_never_reused (s : FScope) (ops : List BOp) (i j a b : Nat)
+    (hi : (s.claims ops)[i]? = some a) (hj : (s.claims ops)[j]? = some b) (hne : i ≠ j) : a ≠ b := by
+  have hp := (FScope.claims_sorted ops s).1
+  rw [List.pairwise_iff_getElem] at hp
+  obtain ⟨hil, hia⟩ := List.getElem?_eq_some_iff.1 hi
+  obtain ⟨hjl, hjb⟩ := List.getElem?_eq_some_iff.1 hj
+  rcases Nat.lt_or_gt_of_ne hne with h | h
+  · have := hp i j hil hjl h
+    omega
+  · have := hp j i hjl hil h
+    omega
+
+/-- the same as a list property: the claimed slots are pairwise different -/
+theorem block_slots_nodup (s : FScope) (ops : List BOp) : (s.claims ops).Nodup :=
+  ((FScope.claims_sorted ops s).1).imp (fun h => Nat.ne_of_lt h)
+
+/-- … they are also different from every slot handed out BEFORE the sequence (parameters, the
+    function's own name, earlier locals: all below `count`), and they fit in the frame the VM
+    allocates (`LocalsCount` = the function table's final `count`) -/
+theorem block_slots_fresh_and_in_frame (s : FScope) (ops : List BOp) (a : Nat) (ha : a ∈ s.claims ops) :
+    s.count ≤ a ∧ a < (s.runOps ops).count :=
+  (FScope.claims_sorted ops s).2.2 a ha
+
+/-- closing a block gives nothing back: the next index is the same as before the close -/
+theorem close_keeps_count (s : FScope) : s.closeBlock.count = s.count := rfl
+
+/-- a new variable is what its name resolves to from then on in its block (it shadows the
+    outer variables of the same name), at the slot it claimed -/
+theorem declared_name_resolves (s : FScope) (x : String) (i : Nat) (s' : FScope)
+    (h : s.declare x = (i, true, s')) : s'.lookup x = some i := by
+  unfold FScope.declare at h
+  cases hb : s.blocks with
+  | nil =>
+    simp only [hb] at h
+    cases hl : lookupTab s.bodyTab x with
+    | some k => simp [hl] at h
+    | none =>
+      simp only [hl, Prod.mk.injEq] at h
+      obtain ⟨hi, _, hs⟩ := h
+      subst hs hi
+      simp [FScope.lookup, lookupBlocks, lookupTab, List.find?]
+  | cons b bs =>
+    simp only [hb] at h
+    cases hl : lookupTab b x with
+    | some k => simp [hl] at h
+    | none =>
+      simp only [hl, Prod.mk.injEq] at h
+      obtain ⟨hi, _, hs⟩ := h
+      subst hs hi
+      simp [FScope.lookup, lookupBlocks, lookupTab, List.find?]
+
+/-- **the resolver's steps are the allocator's operations**: inside a function `x := …`
+    (`declareName`), a block's begin and end act on the innermost function's tables exactly as
+    `BOp.decl`, `BOp.openB`, `BOp.closeB` -/
+theorem resolver_uses_allocator (rs : RS) (s : FScope) (outer : List FScope) (x : String)
+    (h : rs.scopes = s :: outer) :
+    (declareName rs x).2.scopes = (s.applyOp (.decl x)).1 :: outer ∧
+    (declareName rs x).1 = .loc (s.declare x).1 ∧
+    rs.openB = .ok { rs with scopes := (s.applyOp .openB).1 :: outer } ∧
+    rs.closeB.scopes = (s.applyOp .closeB).1 :: outer := by
+  refine ⟨?_, ?_, ?_, ?_⟩
+  · simp only [declareName, h, FScope.applyOp]
+    rcases hd : s.declare x with ⟨i, b, s'⟩
+    cases b <;> rfl
+  · simp only [declareName, h]
+  · simp only [RS.openB, h, FScope.applyOp]
+  · simp only [RS.closeB, h, FScope.applyOp]
+
+/-- **A closure over a block variable reads and writes exactly that variable, whatever is
+    declared later.**  Let `a` be the slot of any variable of a function and `b` the slot of any
+    OTHER variable the same function declares — before or after, in the same block, a sibling
+    block, an enclosing or a nested one, after any number of blocks were closed in between.  In
+    every state and every activation `act` of that function: a write to the other variable
+    (cell `(act, b)`: the function's own `StoreFast b`, or `StoreFree` through any closure's
+    cell) leaves what a closure holding the cell `(act, a)` reads unchanged; and what is
+    written through `(act, a)` is what is read back through it. -/
+theorem block_capture_lexical (s : FScope) (ops : List BOp) (i j a b : Nat)
+    (hi : (s.claims ops)[i]? = some a) (hj : (s.claims ops)[j]? = some b) (hne : i ≠ j)
+    (st : St) (act : Nat) (v : Val) :
+    readCell (writeCell st (act, b) v) (act, a) = readCell st (act, a) ∧
+    (∀ fr : Act, st.acts[act]? = some fr → a < fr.locals.length →
+      readCell (writeCell st (act, a) v) (act, a) = some v) := by
+  have hab : a ≠ b := block_slots_never_reused s ops i j a b hi hj hne
+  refine ⟨cell_write_other st (act, b) (act, a) v ?_, ?_⟩
+  · intro h
+    exact hab (Prod.mk.inj h).2.symm
+  · intro fr hfr hlen
+    exact cell_write_read st (act, a) v fr hfr hlen
+
+/-- the same through the two store instructions: the running function's `StoreFast b`
+    (`Ref.loc b`) and a closure's `StoreFree k` whose `k`-th cell names the other variable -/
+theorem block_capture_lexical_stores (s : FScope) (ops : List BOp) (i j a b : Nat)
+    (hi : (s.claims ops)[i]? = some a) (hj : (s.claims ops)[j]? = some b) (hne : i ≠ j)
+    (st : St) (v : Val) :
+    readCell (storeRef (.loc b) v st).2 (curAct st, a) = readCell st (curAct st, a) ∧
+    (∀ (fr : Act) (k act : Nat), st.acts[curAct st]? = some fr → fr.cells[k]? = some (act, b) →
+      readCell (storeRef (.free k) v st).2 (act, a) = readCell st (act, a)) := by
+  refine ⟨?_, ?_⟩
+  · exact (block_capture_lexical s ops i j a b hi hj hne st (curAct st) v).1
+  · intro fr k act hfr hk
+    rw [store_free_hits_indexed_cell st fr k (act, b) v hfr hk]
+    exact (block_capture_lexical s ops i j a b hi hj hne st act v).1
+
+/-- non-vacuity, the shape of the programs the harness generates: `func a() { get := nil;
+    if … { secret := 42; get = func() { return secret } }; if … { other := 7 };
+    for i := 0; … { sq := … }; last := …; … }` — five variables, five slots -/
+example :
+    ({ fnTab := [], bodyTab := [], count := 0, frees := [] } : FScope).claims
+      [.decl "get", .openB, .decl "secret", .closeB, .openB, .decl "other", .closeB,
+       .openB, .decl "i", .openB, .decl "sq", .closeB, .closeB, .decl "last"] = [0, 1, 2, 3, 4, 5] := by decide
+
+/-- what the theorem excludes: an allocator that hands out "the number of variables of the
+    blocks that are still open" (so that the slots of closed blocks are recycled) gives
+    `secret` and `other` the same slot -/
+def recyclingClaims : List (List String) → List BOp → List Nat
+  | _, [] => []
+  | open_, .openB :: ops => recyclingClaims ([] :: open_) ops
+  | open_, .closeB :: ops => recyclingClaims open_.tail ops
+  | [], .decl _ :: ops => recyclingClaims [] ops
+  | b :: bs, .decl x :: ops => ((b :: bs).map List.length).sum :: recyclingClaims ((x :: b) :: bs) ops
+
+example : recyclingClaims [[]] [.decl "get", .openB, .decl "secret", .closeB, .openB, .decl "other", .closeB] = [0, 1, 1] := by decide
+
+/-- the demo program end to end in the closure language: resolved by `resolveProg`, run in
+    both modes: the closure made in the first `if` body still returns 42 after the second
+    block declared `other` and the function declared `last` -/
+def blockDemo : List Tm := [
+  .fn "a" [] [
+    .decl "get" .nil,
+    .ifte (.int 1) [.decl "secret" (.int 42), .assign "get" (.fn "_" [] [.ret (.var "secret")])] [],
+    .ifte (.int 1) [.decl "other" (.int 7)] [.decl "alt" (.int 8)],
+    .loop .for3 ["i"] 2 [] [.decl "sq" (.add (.var "i") (.var "i"))],
+    .decl "last" (.int 9),
+    .ret (.call (.var "get") [])],
+  .call (.var "a") []]
+
+/-- `blockDemo` as `resolveProg` resolves it (`a` is named: slot 0 is the function itself) -/
+def blockDemoProg : Prog :=
+  { lits := [
+      { nparams := 0, named := false, nlocals := 0, frees := [(2, 0)], body := [.ret (.load (.free 0))] },
+      { nparams := 0, named := true, nlocals := 8, frees := [],
+        body := [.store (.loc 1) .nil,
+                 .ifte (.int 1) [.store (.loc 2) (.int 42), .store (.loc 1) (.mkfn 0)] [],
+                 .ifte (.int 1) [.store (.loc 3) (.int 7)] [.store (.loc 4) (.int 8)],
+                 .loop .for3 [.loc 5] 2 [] [.store (.loc 6) (.add (.load (.loc 5)) (.load (.loc 5)))],
+                 .store (.loc 7) (.int 9),
+                 .ret (.call (.load (.loc 1)) [])] }],
+    main := [.store (.glob 0) (.mkfn 1), .call (.load (.glob 0)) []],
+    nglobals := 1, mainLocals := 1 }
+
+example : ((resolveList 12 blockDemo { lits := [], scopes := [], globals := [] }).toOption.map
+    fun p => (p.2.lits.map (·.frees), p.2.lits.map (·.nlocals))) = some ([[(2, 0)], []], [0, 8]) := by decide
+example : observe (Impl 30 blockDemoProg) = .inl (some 42) := by decide
+example : observe (Spec 30 blockDemoProg) = .inl (some 42) := by decide
+example : depth1Only blockDemoProg.lits = true := by decide
+
 end Risor.C02
